@@ -43,9 +43,21 @@ REQUIRED = ["DaeVerif.C03.Props." + n for n in (
     "wan_new_udp_flow_follows_first_match",
     "sticky_decision_installed_programs", "first_match_decision_is_sticky", "first_match_decision_is_sticky_lan_udp",
     "first_match_decision_is_sticky_wan_tcp", "first_match_decision_is_sticky_wan_udp",
+    # phase 4: who owns a socket (cgroup programs), PARAM, janitor rounds interleaved with traffic, reload retirement,
+    # lookup faults, the LAN-egress side of WAN-opened UDP flows
+    "process_name_is_basename_of_command", "cgroup_hook_registers_the_process", "cgroup_hook_keeps_first_owner",
+    "cgroup_hook_failure_still_records_pid", "sock_release_forgets_the_socket", "tc_hooks_never_change_socket_ownership",
+    "registered_dae_socket_is_always_recognised", "registered_foreign_socket_is_never_recognised",
+    "record_names_the_process_that_owns_the_socket", "param_layout",
+    "janitor_walk_collects_expired_or_retired_entries", "janitor_delete_phase_is_by_key",
+    "janitor_round_without_traffic_is_atomic", "tracked_flow_survives_interleaved_janitor",
+    "reload_retirement_spares_flows_active_since_the_horizon", "reload_retirement_removes_what_was_idle_before_the_horizon",
+    "janitor_spares_handoff_published_after_its_clock_sample", "forgotten_socket_is_recognised_by_mark_only",
+    "retrieve_without_fault", "lookup_fault_never_yields_a_wrong_record", "consumers_fail_closed_on_lookup_error",
+    "observing_hooks_mark_reverse_udp_tuple", "wan_opened_udp_service_replies_pass",
 )]
 
-GO_ANSWERED = ("connkey", "hoexp", "press")
+GO_ANSWERED = ("connkey", "hoexp", "press", "origdst")
 
 
 def streams_for(ctx):
@@ -75,6 +87,10 @@ def bpf2go_padding(ctx, fake):
               "\t\tPname [16]uint8\n\t\tPid uint32\n\t\tDscp uint8\n\t\t_ [3]byte\n\t}\n")
     ok = ok and patch("bpfRoutingHandoffEntry",
                       lambda b: re.sub(r"Result\s+bpfRoutingResult\n", lambda _: inline, b)[:-2] + "\t_ [4]byte\n}\n")
+    # struct pid_pname (8 + 4 + 16, padded to 32) and struct redirect_entry (hole before last_seen_ns): the values the
+    # cookie_pid / redirect_track janitors read with BatchLookup
+    ok = ok and patch("bpfPidPname", lambda b: b[:-2] + "\t_ [4]byte\n}\n")
+    ok = ok and patch("bpfRedirectEntry", lambda b: re.sub(r"(\tLastSeenNs\s+uint64\n)", lambda m: "\t_ [4]byte\n" + m.group(1), b, count=1))
     if not ok:
         return None
     outp = os.path.join(ctx.out, "bpf_fake_c03_padded.go")
@@ -184,6 +200,22 @@ def consumer_glue(ctx):
     return {os.path.join(REPO, "control", "zz_verif_c03_consumer_glue.go"): outp}
 
 
+def param_literal(ctx):
+    """The value fullLoadBpfObjects stores into the ELF variable PARAM, regenerated from /repo's current bpf_utils.go as
+    verifC03ParamImage (translators/c03param, go/ast: the struct literal is copied verbatim).  None = TRANSLATOR-FAILED."""
+    from verifkit import go_env
+    outp = os.path.join(ctx.out, "c03_param_literal.go")
+    if os.path.exists(outp):
+        os.unlink(outp)
+    rc, out, dt = sh(["go", "run", "main.go", os.path.join(REPO, "control"), outp],
+                     cwd=os.path.join(VERIF, "translators", "c03param"), env=go_env(), timeout=600)
+    ctx.log.write(f"$ c03param [{dt:.1f}s rc={rc}] {out}\n")
+    if rc != 0 or not os.path.exists(outp):
+        ctx.say("TRANSLATOR-FAILED c03param (the PARAM literal of fullLoadBpfObjects is not extractable):", out[-1500:])
+        return None
+    return {os.path.join(REPO, "control", "zz_verif_c03_param.go"): outp}
+
+
 DIAG = re.compile(r" (ck=\[[^\]]*\]|ev=\[[^\]]*\]|ovf=\S+)")
 
 
@@ -200,9 +232,11 @@ def jan_field(line, name):
     return [k for k in m.group(1).split(";") if k] if m else []
 
 
-def jan_canon(line, unc):
-    return "del=[%s] hdel=[%s]" % (";".join(k for k in jan_field(line, "del") if k not in unc),
-                                   ";".join(k for k in jan_field(line, "hdel") if k not in unc))
+JAN_FIELDS = {"jan": ("del", "hdel"), "jdel": ("del", "hdel"), "jan4": ("del", "hdel", "rdel", "cdel")}
+
+
+def jan_canon(line, unc, names=("del", "hdel")):
+    return " ".join("%s=[%s]" % (n, ";".join(k for k in jan_field(line, n) if k not in unc)) for n in names)
 
 
 def scenario_replay(ops, lineno, limit=400):
@@ -260,7 +294,7 @@ def run(ctx):
         if seen_kinds[kind] <= 4:  # a handful of replays per kind of disagreement is enough
             pending.append((prio, len(pending), what, replay, key))
 
-    ctx.prove(["DaeVerif.C03.Props", "DaeVerif.C03.Compose", "DaeVerif.C03.Consumer", "DaeVerif.C03.Dae0Props", "DaeVerif.C03.EdgeProps", "DaeVerif.C03.Pressure", "DaeVerif.C03.Teardown"], ["DaeVerif.C03.Props"], ["DaeVerif/C03/*.lean"], extra_targets=["c03drv"])
+    ctx.prove(["DaeVerif.C03.Props", "DaeVerif.C03.Compose", "DaeVerif.C03.Consumer", "DaeVerif.C03.Dae0Props", "DaeVerif.C03.EdgeProps", "DaeVerif.C03.Pressure", "DaeVerif.C03.Teardown", "DaeVerif.C03.CgroupProps", "DaeVerif.C03.Janitor2Props", "DaeVerif.C03.ParamProps", "DaeVerif.C03.Fault", "DaeVerif.C03.MoreProps"], ["DaeVerif.C03.Props"], ["DaeVerif/C03/*.lean"], extra_targets=["c03drv"])
     ctx.required_theorems(REQUIRED)
 
     # ---- native build of /repo's CURRENT tproxy.c (unmodified; #included by the driver)
@@ -280,9 +314,11 @@ def run(ctx):
 
     fake = bpf2go_padding(ctx, ctx.fake_bpf_overlay())
     glue = consumer_glue(ctx)
-    if fake and glue:
+    pgen = param_literal(ctx)
+    if fake and glue and pgen:
         fake = dict(fake, **glue)
-    binp = fake and glue and ctx.go_test_build("control", ["control/c03_test.go"], "c03", tags="", extra_overlay=fake)
+        fake.update(pgen)
+    binp = fake and glue and pgen and ctx.go_test_build("control", ["control/c03_test.go"], "c03", tags="", extra_overlay=fake)
     if not binp:
         return 2
     rc, out = ctx.run_harness(binp, "TestVerifC03Gen")
@@ -338,6 +374,7 @@ def run(ctx):
         pass
 
     n_frames = n_parse = n_retr = n_retr_skipped = n_const = n_twin_frames = n_diag_diffs = n_jan = n_jan_deleted = 0
+    n_param = 0
     n_rel = n_rel_deleted = n_use = n_use_skipped = n_use_cached = n_peer = n_peer_ok = n_d0 = n_d0_redirect = 0
     distinct = set()
     verdicts = collections.Counter()
@@ -392,7 +429,12 @@ def run(ctx):
             elif kind == "const":
                 merged.append(f"{go[i]}|{cl[i]}")
                 skip.add(i)
-            elif kind == "jan":
+            elif kind == "paramimg":
+                # what the control plane meant (Go) | what the programs read (C); the model decodes the same image
+                merged.append(f"{go[i]}|{cl[i]}")
+                model[i] = f"{model[i]}|{model[i]}"
+                n_param += 1
+            elif kind in JAN_FIELDS:
                 # keys the real janitors deleted vs the model's; keys whose age is within the host's scheduling noise
                 # of a timeout (`unc`) are left out on both sides
                 if not rt[i].startswith("del="):
@@ -400,10 +442,17 @@ def run(ctx):
                     skip.add(i)
                 else:
                     unc = set(jan_field(rt[i], "unc"))
-                    merged.append(jan_canon(rt[i], unc))
-                    model[i] = jan_canon(model[i], unc)
-                    n_jan += 1
-                    n_jan_deleted += len(jan_field(rt[i], "del")) + len(jan_field(rt[i], "hdel"))
+                    merged.append(jan_canon(rt[i], unc, JAN_FIELDS[kind]))
+                    model[i] = jan_canon(model[i], unc, JAN_FIELDS[kind])
+                    if kind == "jan":
+                        n_jan += 1
+                        n_jan_deleted += len(jan_field(rt[i], "del")) + len(jan_field(rt[i], "hdel"))
+                    else:
+                        branch[kind + ".rounds"] += 1
+                        for f in JAN_FIELDS[kind]:
+                            branch[kind + ".deleted." + f] += len(jan_field(rt[i], f))
+            elif kind == "jsnap":
+                merged.append(rt[i])
             elif kind == "retr":
                 merged.append(rt[i])
                 if rt[i] == "rr=skip-boundary":
@@ -434,11 +483,16 @@ def run(ctx):
                     "dump": "map contents differ from the model",
                     "connkey": "outboundConnectivityMapKey differs from the slot wan_outbound_is_alive reads in the model",
                     "jan": "the userspace janitors (real cleanupConnStateMapBeforeLocked / cleanupRoutingHandoffMapBeforeLocked on the stored bytes) delete other entries than the model's janitor",
+                    "jan4": "the four userspace janitors / the reload-retirement pass (real cleanupConnStateMap, cleanupRoutingHandoffMap, cleanupRedirectTrackMap, cleanupCookiePidMap or RunReloadRetirementCleanup on the stored bytes) delete other entries than the model's round",
+                    "jdel": "a janitor round whose BatchLookup walk and deletes are separated by traffic (real cleanupConnStateMapBeforeLocked / cleanupRoutingHandoffMapBeforeLocked; the map changes between the two phases) deletes other entries than the model's snapshot-then-delete",
+                    "paramimg": "PARAM as the control plane's struct literal serialises it (fullLoadBpfObjects, regenerated) is not what the programs read from struct dae_param / not what the control plane meant (control_plane_pid must be the pid of the loading process)",
+                    "cg": "cgroup program (tproxy_wan_cg_sock_create / connect / sendmsg / sock_release: who owns the socket cookie) differs from the proved model",
                     "use": "the record the control plane works with (head of handleConn / UDP ingress task with its per-endpoint routing cache, regenerated from source, on the bytes the kernel program stored) differs from the model's consumer",
                     "peer": "tproxy_dae0peer_ingress (the consumer of cb[] on dae's veth peer) differs from the proved model",
                     "d0": "tproxy_dae0_ingress (the consumer of redirect_track: replies of dae to a captured client) differs from the proved model",
                     "rel": "endpoint teardown (real UdpEndpoint.TrackUdpConnStateTuplePair + Close -> ReleaseUdpConnStateTuples on the stored bytes) deletes other conn_state entries than the model's release",
                     "press": "updateConnStateJanitorPressure (when the conn-state janitor halves its timeouts) differs from the model",
+                    "origdst": "RetrieveOriginalDest (the original destination = second half of the record's lookup key, read from the datagram's control messages) differs from the model",
                     "hoexp": "routingHandoffExpired differs from the model"}.get(kind, "implementation differs from the proved model")
             queue(2, f"{what} at {n}:{ln}: impl `{im[:300]}` model `{mo[:300]}`",
                        {"stream": n, "line": ln, "op": op[:6000], "impl": im[:6000], "model": mo[:6000],
@@ -600,6 +654,34 @@ def run(ctx):
                          f"v={vs[3]} (expected 0/0; the same pairs on port 5353 give {vs[5]}/{vs[7]})",
                       {"ops": [o for o, _ in w[:4]], "impl": [c for _, c in w[:4]], "replay": replay_cmd},
                       key="c03-wan-opened-udp53-reply-captured")
+        w = per.get("janitor-walk-delete-race", [])
+        if len(w) == 4:
+            vs = [v(x[1]) for x in w]
+            rtl = read_lines(os.path.join(ctx.out, "c03f.retr"))
+            jd = [rtl[i] for i, op in enumerate(ops) if op == "jdel" and i < len(rtl)]
+            # the witness's jdel is the one right after its jsnap
+            jidx = [i for i, op in enumerate(ops) if op.startswith("note witness janitor-walk-delete-race")]
+            jans = next((rtl[i] for i in range(jidx[0], len(ops)) if ops[i] == "jdel"), "") if jidx else ""
+            kidx = next((ops[i].split(" ")[1] for i in range(jidx[0], len(ops)) if ops[i].startswith("conndel ")), "") if jidx else ""
+            deleted = kidx != "" and kidx in jan_field(jans, "del")
+            wit["janitor-walk-delete-race"] = {"verdicts": "".join(x or "?" for x in vs), "fresh_entry_deleted_by_real_janitor": deleted}
+            race_key = "c03-janitor-delete-races-new-connection"
+            race_listed = any(k.get("key") == race_key for k in ctx.known)
+            if deleted and vs[2] == "7" and vs[3] != "7" and not race_listed:
+                # reproduced on the real code on every run, but NOT reported as a violation until the coordinator lists the
+                # key in known_findings.jsonl (then it becomes a KNOWN-FINDING line): see design_notes/C03.md, "Proposed finding"
+                ctx.say(f"NOTE property=C03 proposed finding {race_key} reproduced (not listed, not counted as a violation): the "
+                        f"conn-state janitor's deletes removed the entry of a connection opened after its BatchLookup walk; "
+                        f"SYN v={vs[2]}, next segment v={vs[3]}")
+            if deleted and vs[2] == "7" and vs[3] != "7" and race_listed:
+                queue(0, "a janitor round racing with a new connection ends the new connection's tracking: li SYN+FIN/ACK of "
+                         "192.168.1.10:40000->1.2.3.4:443 (entry CLOSING), 12 s later the conn-state janitor's BatchLookup walk "
+                         "collects the key; before its deletes run a NEW SYN on the same 5-tuple is handed to dae "
+                         f"(v={vs[2]}, decision cached); the real cleanupConnStateMapBeforeLocked then deletes the fresh entry by key "
+                         f"and the connection's next segment gets v={vs[3]} (expected 7 = follow the decision of its SYN)",
+                      {"ops": [ops[i] for i in range(jidx[0], min(len(ops), jidx[0] + 60)) if not ops[i].startswith(("alive", "cookie"))][:20],
+                       "impl": [c for _, c in w], "janitor": jans, "replay": replay_cmd},
+                      key=race_key)
         w = per.get("synack-parse-paths", [])
         if len(w) == 5:
             wit["synack-parse-paths"] = [w[0][1][:40], v(w[3][1]), v(w[4][1])]
@@ -657,6 +739,26 @@ def run(ctx):
             ("endpoint teardowns", n_rel, 150), ("entries deleted by endpoint teardown", n_rel_deleted, 60),
             ("scope-sensitive scenarios", d.get("scenario.scope-sensitive", 0), 30),
             ("MAC-packer witness frames", len(ctx.cov.get("witnesses", {}).get("mac-packers", "")), 21),
+            # phase 4
+            ("cgroup program runs", sum(v for k, v in d.items() if k.startswith("cg.prog.")), 1500),
+            ("cgroup sock_release runs", d.get("cg.prog.release", 0), 60),
+            ("command lines with a path", d.get("cg.args.path", 0) + d.get("cg.args.path-args", 0), 400),
+            ("unreadable / over-long / odd command lines", d.get("cg.args.unreadable", 0) + d.get("cg.args.long-path", 0) +
+             d.get("cg.args.name-ge-16", 0) + d.get("cg.args.trailing-slash", 0) + d.get("cg.args.non-ascii", 0), 200),
+            ("kernels without bpf_get_current_task", d.get("cg.no-current-task-helper", 0), 150),
+            ("scenarios with PARAM from the control plane's literal", d.get("scenario.param-from-control-plane-literal", 0), 100),
+            ("PARAM images compared three-way", n_param, 100),
+            ("four-map janitor rounds", rp.get("jan4.rounds", 0), 150),
+            ("reload-retirement passes", rp.get("jan4.reload-retirement", 0), 80),
+            ("redirect_track / cookie_pid entries deleted", rp.get("jan4.deleted.rt", 0) + rp.get("jan4.deleted.ck", 0), 100),
+            ("two-phase janitor rounds", rp.get("jdel.rounds", 0), 150),
+            ("delete phases that met a changed map", rp.get("jdel.interleaved-delete-phase.conn", 0) + rp.get("jdel.interleaved-delete-phase.ho", 0), 100),
+            ("entries deleted although changed since the walk", rp.get("jdel.deleted-entry-changed-since-walk.conn", 0) + rp.get("jdel.deleted-entry-changed-since-walk.ho", 0), 20),
+            ("lookup faults injected", rp.get("use.fault-injected.conn", 0) + rp.get("use.fault-injected.ho", 0), 250),
+            ("TCP relay closed on a lookup error", rp.get("use.tcp.closed-on-lookup-error", 0), 60),
+            ("datagrams dropped on a lookup error", rp.get("use.udp.dropped-on-lookup-error", 0), 60),
+            ("RetrieveOriginalDest ops", d.get("origdst.ops", 0), 600),
+            ("frames with IP-version / doff / skb->protocol mutants", d.get("mut.ip-version-nibble", 0) + d.get("mut.tcp-doff", 0) + d.get("mut.skb-protocol", 0), 150),
         ]
         low = [f"{name}: {got} < {need}" for name, got, need in floors if got < need]
         ctx.cov["generator_floors"] = {name: [got, need] for name, got, need in floors}
